@@ -111,6 +111,7 @@ type World struct {
 	EverCompact bool
 
 	traceMode bool
+	lastShape string
 
 	// prov: for every live handle object, the operation that produced it and whether its container
 	// was stored inline at that moment (facts a parent callback may capture when it is installed).
